@@ -135,7 +135,10 @@ def streams(tier, rng, P, only=None, cases=None):
                                          ("PRINT(1<2&2<3)", "b11,b9,I1,I2,b9,I2,I3"), ("PRINT(7%0)", "b2,I7,I0"), ("PRINT((2*3)+1)", "b3,b0,I2,I3,I1"),
                                          # the ends of the 64-bit range written as literals
                                          ("PRINT(-9223372036854775808)", "n,I9223372036854775808"), ("PRINT(9223372036854775807)", "I9223372036854775807"),
-                                         ("PRINT(-9223372036854775807)", "n,I9223372036854775807"), ("PRINT(-9223372036854775808+1)", "b3,n,I9223372036854775808,I1")]):
+                                         ("PRINT(-9223372036854775807)", "n,I9223372036854775807"),
+                                         # hexadecimal literals wider than 32 bits
+                                         ("PRINT($100000000)", "I4294967296"), ("PRINT(0x100000000 / 65536)", "b1,I4294967296,I65536"), ("PRINT($7FFFFFFFFFFFFFFF)", "I9223372036854775807"),
+                                         ("PRINT($FFFFFFFF+1)", "b3,I4294967295,I1"), ("PRINT(0x1000000000 / $10000000)", "b1,I68719476736,I268435456"), ("PRINT(-9223372036854775808+1)", "b3,n,I9223372036854775808,I1")]):
             cs.append(dict(req="run " + hx(src), src=src, show=src, tree=tree, nops=2, key="fixed%d" % j))
         return cs
     def expr_model(c, st, f): return ["expr " + c["tree"]]
